@@ -4,6 +4,10 @@ import (
 	"bytes"
 	"encoding/json"
 	"fmt"
+	"io"
+	"net"
+	"os"
+	"syscall"
 	"github.com/scrapli/scrapligo/driver/generic"
 	"regexp"
 	"strings"
@@ -68,6 +72,9 @@ type faultCase struct {
 	// TimedOut (fault ioerr): the persistent read error is "connection timed out" (an error whose
 	// Timeout() is true) instead of EIO
 	TimedOut bool `json:"timed_out,omitempty"`
+	// WriteKind (fault writeerr): what the failing write returns: "" the simulator's error, "eof"
+	// io.EOF (a half-closed session reports the end of the stream on the write), "eof-wrapped", "epipe"
+	WriteKind string `json:"write_kind,omitempty"`
 }
 
 func genFault(prop string, r *sim.Rng, i int) *faultCase {
@@ -83,6 +90,9 @@ func genFault(prop string, r *sim.Rng, i int) *faultCase {
 		c.Fault = r.Pick([]string{"eof", "ioerr", "ioerr", "writeerr"})
 		c.Timeout = "conn"
 		c.TimedOut = c.Fault == "ioerr" && r.Chance(1, 3)
+		if c.Fault == "writeerr" {
+			c.WriteKind = r.Pick([]string{"", "eof", "eof-wrapped", "epipe"})
+		}
 	}
 	switch r.Intn(3) {
 	case 0:
@@ -426,6 +436,14 @@ func execFault(c *faultCase, fault bool, k int) *faultRun {
 				tr.SetLoss(fr.d0+k, sim.LossErr)
 			}
 		case "writeerr":
+			switch c.WriteKind {
+			case "eof":
+				tr.WriteErr = io.EOF
+			case "eof-wrapped":
+				tr.WriteErr = fmt.Errorf("write to session: %w", io.EOF)
+			case "epipe":
+				tr.WriteErr = &net.OpError{Op: "write", Net: "tcp", Err: os.NewSyscallError("write", syscall.EPIPE)}
+			}
 			tr.SetWriteErr(fr.w0 + k)
 		}
 	}
